@@ -11,8 +11,12 @@ type Budget struct {
 	Alloc    int64
 	Exceeded string // "", "ticks", "alloc"
 	HotSite  int32  // site with most ticks in the sampling window after the bound was crossed
-	sample   map[int32]int
-	sampleN  int
+	// PanicOnExceed makes an overrun panic with BudgetExceeded even inside a simulation
+	// (harness-driven decoder calls that are wrapped in recover); by default the task is
+	// ended with runtime.Goexit, which code under test cannot swallow with recover.
+	PanicOnExceed bool
+	sample        map[int32]int
+	sampleN       int
 }
 
 var tickOn bool
@@ -96,6 +100,10 @@ func (b *Budget) over(site int32, why string) {
 		}
 	}
 	b.HotSite = best
+	if b.PanicOnExceed {
+		Disarm()
+		panic(BudgetExceeded{b})
+	}
 	if s := cur; s != nil {
 		if t := s.caller(); t != nil {
 			t.ExitKind = "budget"
